@@ -41,6 +41,20 @@ def use_the_library():
     from pyscsi.pyscsi import scsi_enum_command as ec
     from pyscsi.pyscsi.scsi import SCSI
     from recdev import RecordingDevice
+    # an application makes its OWN OpCode objects that happen to carry a listed name and value (to describe a command the library has no
+    # class for, or a variant of one) and then changes them through the documented setters: the library's tables are not its objects
+    from pyscsi.pyscsi.scsi_opcode import OpCode
+    for sname in ("spc", "sbc", "ssc", "smc", "mmc"):
+        tbl = getattr(ec, sname)
+        for k in list(tbl.keys):
+            op = getattr(tbl, k)
+            try:
+                mine = OpCode(op.name, op.value, {"MY_ACTION": 0x1F})
+                mine.value = op.value ^ 0xFF
+                mine.name = "APPLICATION_" + str(op.name)
+                mine.serviceaction.add("ANOTHER", 0x1E)
+            except Exception:  # noqa
+                pass
     for fillbyte in (0x00, 0xFF, 0x08, 0x55, 0xAA):
         for b0 in list(range(32)) + [0x20 | t for t in (0, 1, 5, 8)] + [0x7F, 0xFF]:
             dev = RecordingDevice(ec.spc)
